@@ -243,10 +243,11 @@ class CaptureSpec(Spec):
     name = 'capture'
     title = 'CaptureStdout: one capture object re-used for many parts'
     rule = ('history of uses of one CaptureStdout (suppress on/off): with-block writing a unique token, '
-            'writing nothing, writing two chunks, writing then raising, writing outside the block; every '
+            'writing nothing, writing two chunks, writing then raising, writing outside the block, writing through a '
+            'reference to sys.stdout taken in the first block; every '
             'history up to max_len is replayed; non-trivial = history with >= 2 captured blocks')
     max_cost = 99
-    EVENTS = ['w', 'n', 'ww', 'wr', 'out', 'nl']
+    EVENTS = ['w', 'n', 'ww', 'wr', 'out', 'nl', 'ref']
 
     def __init__(self, max_len):
         self.max_len = max_len + 1
@@ -278,6 +279,7 @@ class CaptureSpec(Spec):
             cap = utils.CaptureStdout(suppress=suppress)
             exp_parts = []
             exp_outer = ''
+            saved_ref = []          # sys.stdout as seen inside the first captured block
             for i, ev in enumerate(hist[1:]):
                 tok = 't%d' % i
                 written = ''
@@ -287,6 +289,12 @@ class CaptureSpec(Spec):
                     continue
                 try:
                     with cap:
+                        if not saved_ref:
+                            saved_ref.append(sys.stdout)
+                        if ev == 'ref':
+                            # written through the reference taken in an earlier block: still this block's output
+                            saved_ref[0].write(tok + 'r\n')
+                            written += tok + 'r\n'
                         if ev in ('w', 'ww', 'wr'):
                             print(tok)
                             written += tok + '\n'
